@@ -357,7 +357,18 @@ class Ledger:
                 sig = "Assert:%s(%s)" % (m["kind"], short(df.canon(pv.op_tree(m["a"]), b)) if "a" in m else "")
         else:
             cal = mir.callee_of(t)
-            sig = "call:%s(%s)" % (cal["name"], ", ".join(short(df.canon(pv.op_tree(a), b)) for a in t["args"]))
+            if cal["name"] == "assert_failed":
+                # debug_assert_eq!/assert_eq!: the compared values are spelled by their outermost in-workspace call only
+                # (`time_from_underlying(…)`): the trees are position-insensitive, so `f(self.x)` after `self.x = v` and
+                # `f(v)` - the same value - would otherwise be two different keys
+                def sk(a):
+                    tr_ = df.strip(pv.op_tree(a))
+                    if tr_[0] == "call" and str(tr_[1]).startswith("statime") and tr_[3]:
+                        return "%s(…)" % tr_[2]
+                    return short(df.canon(tr_, b))
+                sig = "call:%s(%s)" % (cal["name"], ", ".join(sk(a) for a in t["args"]))
+            else:
+                sig = "call:%s(%s)" % (cal["name"], ", ".join(short(df.canon(pv.op_tree(a), b)) for a in t["args"]))
         if cls == "panic" and getattr(b, "renames", None):
             # assertion messages quote source text: spell renamed locals the pinned way (see facts.pin_names)
             for cur_, pin_ in b.renames.items():
@@ -558,6 +569,10 @@ class Ledger:
             return None
         if cls == "arrayvec_push":
             return fresh_list_push(b, pv, t, c)
+        if cls == "arrayvec_remove" and mir.callee_of(t)["name"] == "remove" and len(t["args"]) == 2:
+            r_ = remove_last(b, pv, t, c)
+            if r_:
+                return r_
         if cls == "arrayvec_collect":
             src = df.canon(pv.call_tree(t), b)
             rt = b.ty(t["dest"]["ty"])
@@ -940,6 +955,24 @@ def fresh_list_push(b, pv, t, c):
                 if x_[0] == "call" and x_[2] == "next" and "::<Take as " in x_[1]:
                     drv = x_
         takes = [(bi2, t2) for bi2, t2, c2 in mir.iter_calls(b, name="take") if "iter" in c2["path"]]
+        # ... or by an iterator over a collection that cannot hold more than CAP items
+        for l_ in lits:
+            if l_[0] == "variant" and set(l_[2]) == {"Some"}:
+                x_ = df.strip(l_[1])
+                if x_[0] == "call" and x_[2] == "next" and len(x_[3]) == 1:
+                    it_ = df.strip(x_[3][0])
+                    if it_[0] == "path" and it_[1][0] == "local" and not [f for f in it_[2] if f != "*"]:
+                        itl = it_[1][1]
+                        n_src = source_capacity(b, d, {"k": "copy", "p": {"l": itl, "proj": [], "ty": b.locals[itl]["ty"]}})
+                        ids = d.whole.get(itl, [])
+                        if n_src is not None and n_src <= cap and len(ids) == 1:
+                            ib, nb_ = ids[0][0], ds[0][0]
+                            in_loop = bool(g.succ[ib]) and ib in g.reachable_from(g.succ[ib][0])
+                            same_loop = in_loop and g.succ[nb_] and nb_ in g.reachable_from(g.succ[ib][0]) and \
+                                ib in g.reachable_from(g.succ[nb_][0])
+                            if (not in_loop or same_loop) and g.dominates(ib, pushes[0]):
+                                return "A6 one push per item of an iterator over a collection of capacity %d into a fresh " \
+                                       "ArrayVec of capacity %d" % (n_src, cap)
         if drv is not None and len(takes) == 1:
             n_ = df.canon(pv.op_tree(takes[0][1]["args"][1]), b)
             n_ok = (n_.isdigit() and int(n_) <= cap)
@@ -966,6 +999,90 @@ def fresh_list_push(b, pv, t, c):
         best = max(best, chain)
     if best <= cap:
         return "A6 at most %d pushes into a fresh ArrayVec of capacity %d on any path" % (best, cap)
+    return None
+
+
+_SHRINK = ("remove", "pop", "clear", "truncate", "drain", "retain", "swap_remove", "swap_pop", "pop_at", "take")
+_ADAPT = ("into_iter", "rev", "iter", "iter_mut", "enumerate", "deref", "deref_mut", "as_slice", "as_mut_slice", "skip",
+          "filter", "peekable", "by_ref", "borrow", "borrow_mut", "as_ref", "as_mut")
+
+
+def remove_last(b, pv, t, c):
+    """`x.remove(x.len() - k)` with `x.len() >= K >= k >= 1` on every path: the index is below the length. The length
+    read must dominate the removal and nothing else in the function may shrink x (a stale length)."""
+    x = df.strip(pv.op_tree(t["args"][0]))
+    i = df.strip(pv.op_tree(t["args"][1]))
+    while i[0] == "field" and i[2] == "0":
+        i = df.strip(i[1])
+    if not (i[0] == "bin" and i[1] in ("SubWithOverflow", "Sub", "SubUnchecked")):
+        return None
+    ln, k = df.strip(i[2]), df._num(i[3])
+    if k is None or k < 1 or not (ln[0] == "call" and ln[2] == "len" and len(ln[3]) == 1):
+        return None
+    xs = slices_norm(df.canon(x, b))
+    if slices_norm(df.canon(df.strip(ln[3][0]), b)) != xs:
+        return None
+    bi = next((bj for bj, t2, c2 in mir.iter_calls(b) if t2 is t), None)
+    if bi is None:
+        return None
+    have = 0
+    for l in c.must_literals(bi):
+        if l[0] == "cmp" and l[1] in ("ge", "gt", "eq"):
+            a_, kk = df.strip(l[2]), df._num(l[3])
+            if kk is not None and a_[0] == "call" and a_[2] == "len" and len(a_[3]) == 1 and \
+                    slices_norm(df.canon(df.strip(a_[3][0]), b)) == xs:
+                have = max(have, int(kk) + (1 if l[1] == "gt" else 0))
+    if have < k:
+        return None
+    g = mir.cfg(b)
+    for bj, t2, c2 in mir.iter_calls(b):
+        if t2 is t or c2["name"] not in _SHRINK or not t2["args"]:
+            continue
+        if slices_norm(df.canon(df.strip(pv.op_tree(t2["args"][0])), b)) == xs:
+            return None
+    # the len() call whose value is the index must dominate the removal
+    for bj, t2, c2 in mir.iter_calls(b, name="len"):
+        if slices_norm(df.canon(df.strip(pv.op_tree(t2["args"][0])), b)) == xs and not g.dominates(bj, bi):
+            return None
+    return "A3 remove(len - %d) with len >= %d on every path and no other shrinking of the list" % (k, have)
+
+
+def slices_norm(s_):
+    return s_.replace("deref_mut(", "deref(").replace("&mut ", "&")
+
+
+def source_capacity(b, d, op, depth=0):
+    """upper bound on the number of items an iterator operand can yield: the capacity of the ArrayVec / the length of
+    the array it was made from (through iter/iter_mut/rev/deref/... adapters that never add items)"""
+    if depth > 12 or op.get("k") not in ("copy", "move"):
+        return None
+    p = op["p"]
+    ty = b.ty(p["ty"])
+    while ty["k"] == "ref":
+        ty = b.ty(ty["to"])
+    if ty["k"] == "array" and isinstance(ty.get("len"), int):
+        return ty["len"]
+    if ty["k"] == "adt" and ty.get("name") == "ArrayVec":
+        for a in ty.get("args", []):
+            if isinstance(a, dict) and a.get("v") is not None:
+                return a["v"]
+        return None
+    if [e for e in p["proj"] if e[0] != "deref"]:
+        return None
+    ds = d.whole.get(p["l"], [])
+    if len(ds) != 1:
+        return None
+    dd = ds[0][2]
+    if dd[0] == "assign":
+        r = dd[1]
+        if r["k"] == "ref":
+            return source_capacity(b, d, {"k": "copy", "p": r["p"]}, depth + 1)
+        if r["k"] in ("use", "cast"):
+            return source_capacity(b, d, r["op"], depth + 1)
+        return None
+    cal = mir.callee_of(dd[1])
+    if cal is not None and cal["name"] in _ADAPT and dd[1]["args"]:
+        return source_capacity(b, d, dd[1]["args"][0], depth + 1)
     return None
 
 
